@@ -102,8 +102,10 @@ def c15(tier, seed, replay):
             run = {"P": P, "cfg": cfg, "mode": mode, "var": r.randrange(len(P["vidx"]))}
             items.append({"rid": k, "runs": [run]})
         res = {}
-        for tag, env in (("i1", envI), ("i2", envI), ("c1", envJ), ("c2", envJ)):
-            outs, killed = run_workers_resilient("rec_rewrites.py", [{"items": items[k::NCPU], "timeout": 60.0} for k in range(NCPU)
+        # the two runs of a mode start from differently poisoned allocator caches (0x00 / 0xFF): a result that depends on
+        # uninitialised memory differs between them deterministically
+        for tag, env, poison in (("i1", envI, 0), ("i2", envI, 255), ("c1", envJ, 255), ("c2", envJ, 0)):
+            outs, killed = run_workers_resilient("rec_rewrites.py", [{"items": items[k::NCPU], "timeout": 60.0, "poison": poison} for k in range(NCPU)
                                                                      if items[k::NCPU]], env, tmp, item_timeout=90.0)
             for o in read_ndjson(outs):
                 res.setdefault(o["rid"], {})[tag] = o["res"][0]
